@@ -8,7 +8,7 @@ CONSTANTS
   MaxDepth = 0
   SubStages = {}
   PostStages = {}
-  NRandom = 18000
+  NRandom = 12000
   RDepth = 2
   RLen = 5
   RVals = {1, 2, 3, 4}
